@@ -157,13 +157,17 @@ NEEDS = {
            ">= 2 truly parallel first get-sessions right after server start"),
  "C20-C": ("GetOrLoad skips the re-check under the write lock when the first lookup found the entry stale: every waiting caller reloads",
            "the interval has elapsed and >= 2 goroutines pass the read-locked lookup before the first takes the write lock"),
+ "C14-C": ("MemoryMetastore.Store refuses a duplicate only when the existing record is not revoked: a revoked record is overwritten",
+           "MemoryMetastore, a revoked SK or IK, and a replacement key created inside the revoked key's own CreateDatePrecision window"),
+ "C14-D": ("both DynamoDB metastores build the put condition with expression.Name(<key id value>): attribute_not_exists on a non-existent attribute is always true, every PutItem overwrites",
+           "a DynamoDB backend that evaluates the condition with its ExpressionAttributeNames, and a second insert of one (id, created): two creators racing in one creation window"),
  "C20-D": ("newIKCache builds a real key cache when CacheSessions is on although CacheIntermediateKeys is off",
            "session cache on together with intermediate-key caching off, then repeated operations"),
 }
 ALSO = {  # additional checks worth running per seed (own property's check always runs)
  "C01-B": ["C14", "C03"], "C02-A": ["C14", "C01"], "C03-A": ["C01", "C14"], "C05-B": ["C01"], "C08-A": ["C16"], "C09-B": ["C08"], "C13-A": ["C18"],
  "C14-A": ["C01", "C02"], "C16-A": ["C08"], "C16-B": ["C15", "C09"], "C18-A": ["C13"], "C18-B": ["C07"], "C07-B": ["C18"], "C01-A": ["C04", "C09"], "C02-B": ["C09"],
- "C10-A": ["C07"], "C16-C": ["C15", "C09"], "C15-C": ["C16"], "C18-D": ["C02"], "C18-C": ["C06"], "C20-C": ["C08"], "C16-D": ["C08"], "C11-D": ["C12"], "C07-C": ["C08"], "C01-C": ["C16", "C08"], "C03-D": ["C06", "C18"], "C09-C": ["C15"], "C09-D": ["C16"], "C03-C": ["C01"], "C15-A": ["C16"], "C20-A": ["C05"], "C12-B": ["C11"], "C11-B": ["C12"],
+ "C10-A": ["C07"], "C16-C": ["C15", "C09"], "C15-C": ["C16"], "C18-D": ["C02"], "C18-C": ["C06"], "C20-C": ["C08"], "C16-D": ["C08"], "C11-D": ["C12"], "C07-C": ["C08"], "C01-C": ["C16", "C08"], "C03-D": ["C06", "C18"], "C09-C": ["C15"], "C09-D": ["C16"], "C03-C": ["C01"], "C15-A": ["C16"], "C20-A": ["C05"], "C12-B": ["C11"], "C11-B": ["C12"], "C14-C": ["C13"], "C14-D": ["C13", "C01"], "C13-D": ["C14"], "C12-D": ["C11"], "C13-C": ["C18"],
 }
 def sh(cmd, **kw):
     return subprocess.run(cmd, shell=True, stdout=subprocess.PIPE, stderr=subprocess.STDOUT, text=True, **kw)
